@@ -54,6 +54,16 @@ func planFor(id string) *Plan {
 
 var plans = []Plan{
 	{
+		ID: "C20", Level: "exploration",
+		Rule: "Part A: every exported RFC error value (37) and a plain Go error x hint / debug / description / state text assembled from a hostile alphabet (quotes, HTML and form-breaking markup, CR LF header text, NUL, invalid UTF-8, percent sequences, non-ASCII) with a unique canary in the debug field and another in the wrapped cause x legacy / new error format x debug exposure on / off x writer (access, PAR, authorize JSON / query / fragment / form_post, introspection, revocation): body parses (JSON, redirect parameters from the raw Location, form_post page through an HTML5 parser), error code and HTTP status match, description / hint / debug / state round-trip, canary present only when exposure is on, the wrapped cause never, no injected headers, parameters or markup, no-store / no-cache on every error and success response. Part B: generated sequences of flows (code with PKCE, hybrid, implicit, password, client credentials, device, PAR, refresh, revocation, introspection) with recognisable secrets (client secret over Basic / POST, client assertion, user password, S256 verifier, every code / token / device code the harness receives) under a storage recorder: no storage call key and no stored request-form value equals or contains one. Non-trivial: error text that needs escaping in its target context; a flow sequence in which secrets were submitted; distinct by (writer, error, format, texts) / (store, strategy, auth method, flows).",
+		Jobs: []Job{
+			{Test: "TestC20_ErrorWriters", Shards: [2]int{8, 12}, Checks: [2]int{1500, 40000}, Timeout: [2]int{600, 3000}},
+			{Test: "TestC20_SuccessHeaders", Shards: [2]int{1, 1}, Timeout: [2]int{300, 300}},
+			{Test: "TestC20_StorageSecrets", Shards: [2]int{7, 12}, Checks: [2]int{250, 6000}, Timeout: [2]int{600, 3000}},
+		},
+	},
+
+	{
 		ID: "C19", Level: "exploration",
 		Rule: "three engines: (1) rapid generates per-goroutine operation lists over the reference MemoryStore (create/get/delete/revoke-by-request-id/invalidate/JTI set+check on a 3-key, 2-request-id pool to force contention), runs them with real parallelism, records call/return timestamps and lets porcupine decide linearizability against a sequential specification partitioned by table; (2) every pair of the API operations authorize, redeem, refresh, revoke (refresh/access), introspect, device poll, PAR use on overlapping credentials is executed under ALL interleavings of their storage steps (the harness owns the schedule; exhaustive DFS for pairs up to a run cap, sampled triples) on both stores: no panic, no stuck schedule, every token handed out is active or was invalidated by a storage step of the other operation, no value minted twice; (3) 8 goroutines run mixed API operations on shared tokens for a fixed time under the race detector, with a fully populated and with a default-constructed Config, HMAC and JWT access tokens: race detector and concurrent-map check silent, no panic, no deadlock (watchdog). Non-trivial: a history with >=2 goroutines on the same table, a schedule whose storage steps alternate between operations, a stress run; distinct by op lists / storage-step order.",
 		Assumptions: []string{"a silent race detector is evidence, not proof; schedules finer than a storage call are only sampled by engine 3"},
